@@ -1,5 +1,4 @@
 P = dict(
-    wip=True,
     bin="egv_c20", trace="Trace_C20", level="model_checking",
     mc=[dict(module="MC_C20", quick_cfg="MC_C20.cfg", thorough_cfg="MC_C20_thorough.cfg"),
         dict(module="MC_C20", quick_cfg="MC_C20_gen.cfg", thorough_cfg="MC_C20_gen_thorough.cfg", coverage=False)],
